@@ -123,7 +123,7 @@ def gen_k1(tier, rng):
     for n in (1, 2):
         for tup in itertools.product(A, repeat=n):
             out.append((0, tramp.relabel([list(tup)])[0], f"exhaustive{n}"))
-    n3, nr = (40000, 30000) if tier == "thorough" else (1500, 2500)
+    n3, nr = (40000, 30000) if tier == "thorough" else (1000, 1800)
     if tier == "thorough":
         pass
     for _ in range(n3):
@@ -152,7 +152,7 @@ def gen_k3(tier, rng):
     ]
     for hs in small:
         out.append((0, tramp.relabel(hs), "small", 3 if tier == "thorough" else 2, None))
-    n = 400 if tier == "thorough" else 45
+    n = 400 if tier == "thorough" else 36
     for _ in range(n):
         scheds = rng.choice([[T0], [T0, S], [T0, ["TS", 1], C0, S], [S, C0]])
         g = tramp.Gen(rng, scheds, unit=U, max_depth=rng.choice([1, 2]), p_raise=0.02)
